@@ -7,7 +7,10 @@ EXTRA = {
     # the float layer: Base/FloatGrid*.v, Base/FloatDue*.v, Generated/TablesTime.v (Props/C01Float.v)
     "C01": (("gen_tables_time.py",), (float_grid.check_float_grid,)),
     # Props/C02Float.v, Props/C05Float.v: the note-off and action due tests generated from the source
-    "C02": (("gen_tables_time.py",), ()),
+    # + the scheduler core translated from the source text (docs/TRANSLATOR3.md): gen_tables_track.py -> Generated/TablesTrack.v,
+    #   tied to Sched/Model.v in Sched/ModelSrc.v (glue: Sched/SrcGlue.v), theorems restated in Props/C02Src.v, C06Src.v ...
+    "C02": (("gen_tables_time.py", "gen_tables_track.py"), ()),
+    "C06": (("gen_tables_track.py",), ()),
     "C05": (("gen_tables_time.py", "gen_tables_sched.py"), ()),   # + Timeline._schedule_action -> Sched/SchedTimeSrc.v, Props/C05Src.v
     # the source translators of docs/TRANSLATOR2.md (harness/src2coq.py): function bodies -> Generated/Tables<X>.v, tied to the
     # models by <Dir>/<Model>Src.v, property theorems restated in Props/<ID>Src.v
